@@ -24,7 +24,7 @@ def build_engine(name):
             core.sh(["coqc", "-Q", core.COQ, "Termemu", "Extract.v"], cwd=out, timeout=900)
             mls = sorted(f for f in os.listdir(out) if f.endswith(".ml") and f != "driver.ml")
             mlis = [f + "i" for f in mls if os.path.exists(os.path.join(out, f + "i"))]
-            core.sh("ocamlfind ocamlopt -O3 -w -a %s %s driver.ml -o drv" % (" ".join(mlis), " ".join(mls)), cwd=out, timeout=900)
+            core.sh("ocamlfind ocamlopt -O3 -w -a -package str -linkpkg %s %s driver.ml -o drv" % (" ".join(mlis), " ".join(mls)), cwd=out, timeout=900)
             open(stamp, "w").write(hv)
         hdir = os.path.join(src, "harness")
         p = core.go_build(hdir, os.path.join(out, "hm"))
